@@ -681,6 +681,13 @@ def gen_program(rng, stats):
         elif r < 0.89 and acts:
             lines.append(f"  match ${rng.choice(acts)}.Finished()")
             stats["match_action_finished"] = stats.get("match_action_finished", 0) + 1
+        elif r < 0.905:
+            # ask the library whether a flow (that may have run and ended long ago) exists
+            fid = rng.choice(["f1", "f2", "f3", "g1", "s1", "nope"])
+            x = f"x{k}"
+            lines.append(f'  ${x} = await {rng.choice(["CheckValidFlowExistsAction", "CheckValidFlowExistsAction", "CheckFlowDefinedAction"])}(flow_id="{fid}")')
+            lines.append(out(f"${x}"))
+            stats["flow_existence_query"] = stats.get("flow_existence_query", 0) + 1
         elif r < 0.93:
             lines.append("  when E2()")
             lines.append("  " + out(use_expr()))
@@ -714,12 +721,16 @@ PROBES = {
     "action-status-through-reference": HELPERS + '\nflow main\n  start MyAction(x=1) as $a0\n  start f5 $a0\n  match E1()\n  send MainReport(s=str($a0.status))\n  match $a0.Finished()\n  send Fin(s=str($a0.status))\n  match Never()\n',
     "three-live-actions": 'flow main\n  start MyAction(p="one") as $a0\n  start OtherAction(q="wave", n=2) as $a1\n  start ThirdAction(r={"idle"}) as $a2\n  match E2()\n  send Out1(a=$a0.p, b=$a1.q, c=len($a2.r), d=$a1.start_event_arguments)\n  match E3()\n  send Out2(v=1)\n  match Never()\n',
     "actions-in-two-flows": HELPERS + '\nflow k1\n  start MyAction(p="k1") as $a\n  match E2()\n  send K1(v=$a.p, s=str($a.status))\n\nflow k2\n  start MyAction(p="k2") as $a\n  match E2()\n  send K2(v=$a.p, s=str($a.status))\n\nflow main\n  start k1\n  start k2\n  start MyAction(p="main") as $a0\n  match E2()\n  send Out1(v=$a0.p)\n  match Never()\n',
+    "flow-exists-after-idle": 'flow helper\n  send HelperRan()\n\nflow main\n  match E1()\n  await helper\n  match E2()\n  $exists = await CheckValidFlowExistsAction(flow_id="helper")\n  $defd = await CheckFlowDefinedAction(flow_id="helper")\n  send Result(exists=$exists, defined=$defd)\n  match E3()\n  await helper\n  send Done()\n  match Never()\n',
     "activated-restarts": HELPERS + '\nflow main\n  activate g1\n  activate g2\n  match E2()\n  send Out1(v=1)\n  match Never()\n',
 }
 
 # histories / continuations of probes that need longer, specific event sequences
 _A = EVENT_ALPHABET
 PROBE_PLANS = {
+    "flow-exists-after-idle": {
+        "histories": [[_A[0]], [_A[0], _A[2]]],
+        "continuations": [[_A[2], _A[3]], [_A[2]], [_A[3]], [_A[1], _A[2], _A[3]]]},
     "shared-action-owner-finishes": {
         "histories": [[_A[0], _A[5], _A[2]], [_A[0], _A[2]]],
         "continuations": [[_A[3], _A[4], _A[3]], [_A[4], _A[3]], [_A[4]], [_A[3]], [_A[1], _A[4], _A[3]]]},
@@ -852,6 +863,23 @@ def _shape_flags(state):
 
 _CFG_CACHE = {}
 
+# library actions that only read the interpreter state: executed in the harness by the real code
+_SYSTEM_ACTIONS = {"StartCheckValidFlowExistsAction": "check_if_flow_exists",
+                   "StartCheckFlowDefinedAction": "check_if_flow_defined"}
+
+
+def _run_system_action(state, ev):
+    import asyncio
+
+    from nemoguardrails.actions.v2_x.generation import LLMGenerationActionsV2dotx as G
+
+    fn = getattr(G, _SYSTEM_ACTIONS[ev["type"]])
+    try:
+        return asyncio.run(fn(None, state=state, flow_id=ev.get("flow_id")))
+    except Exception as ex:  # noqa
+        return "raised:" + type(ex).__name__
+
+
 
 def _fresh_state(src):
     """Parse once per program; every run gets its own copy of the flow configs."""
@@ -904,8 +932,25 @@ def _run_trace(src, events, cut, mode, pick):
             finally:
                 signal.setitimer(signal.ITIMER_VIRTUAL, 0)
             o = list(st.outgoing_events)
+            # state-reading library actions are executed by the REAL action code (as the runtime
+            # would do) and their result is fed back at once
+            for _round in range(6):
+                pend = [e for e in st.outgoing_events if isinstance(e, dict) and e.get("type") in _SYSTEM_ACTIONS]
+                if not pend:
+                    break
+                for e in pend:
+                    rv = _run_system_action(st, e)
+                    fin = {"type": e["type"][5:] + "Finished", "action_uid": e["action_uid"], "is_success": True,
+                           "return_value": rv, "action_name": e["type"][5:]}
+                    signal.setitimer(signal.ITIMER_VIRTUAL, STEP_SECONDS)
+                    try:
+                        st = v2util.step(st, fin)
+                    finally:
+                        signal.setitimer(signal.ITIMER_VIRTUAL, 0)
+                    o += list(st.outgoing_events)
             for e in o:
-                if isinstance(e, dict) and str(e.get("type", "")).startswith("Start") and "action_uid" in e:
+                if isinstance(e, dict) and str(e.get("type", "")).startswith("Start") and "action_uid" in e \
+                        and e.get("type") not in _SYSTEM_ACTIONS:
                     started.append(e["action_uid"])
             res = ren.canon(o)
         except BaseException as ex:  # noqa
@@ -1095,6 +1140,7 @@ def _x3_cases(src, events, rng_seed, limit):
             before = _abstract_state(st2, base, actnum)
             n_before = len(st2.flow_states)
             snapshot = {u: (f.status.name, int(f.activated), f.status_updated) for u, f in st2.flow_states.items()}
+            keys_before = list(st2.flow_id_states)
             acts_before = set(st2.actions)
             refd = None
             try:
@@ -1111,6 +1157,11 @@ def _x3_cases(src, events, rng_seed, limit):
                     age_s = (tnow - upd).total_seconds()
                     if stn not in ("FINISHED", "STOPPED") or actv != 0 or not age_s > 5.0:
                         wrong.append({"uid": u, "status": stn, "activated": actv, "age_s": age_s})
+            # ... the flows that ever ran stay known (flow_id_states keys are read by library actions)
+            if after != "None":
+                for k in keys_before:
+                    if k not in st2.flow_id_states:
+                        wrong.append({"uid": k, "status": "FLOWKEY", "activated": 0, "age_s": 0.0})
             # ... and no action that a remaining instance still lists may be discarded
             if after != "None":
                 for u, f in st2.flow_states.items():
@@ -1179,9 +1230,13 @@ flow main
 
 
 def rails_worker_main():
-    """Child process: for each v2 config, three turns through generate_async, once passing the
-    serialised state of the previous turn (restored on every turn) and once passing one live State
-    object; the bot responses must agree."""
+    """Child process, through the public API LLMRails.generate_async(state=...):
+    (a) linear: three turns, once passing the serialised state of the previous turn (restored on
+        every turn) and once passing one live State object; the bot responses must agree;
+    (b) NON-linear use of saved states on ONE LLMRails instance: the same saved JSON state is
+        restored several times - retried with the same continuation, branched with different
+        continuations, and gone back to after later turns.  Reference: the same continuation on a
+        FRESH LLMRails instance from the same saved state."""
     import asyncio
     import logging
 
@@ -1198,6 +1253,9 @@ def rails_worker_main():
         try:
             config = RailsConfig.from_content(co, 'colang_version: "2.x"\n')
             turns = ["hi", "hi", "bye", "hi"]
+
+            def text(r):
+                return [m.get("content") for m in r.response] if isinstance(r.response, list) else r.response
 
             async def drive(live):
                 rails = LLMRails(config=config, llm=FakeLLM(responses=[]))
@@ -1220,6 +1278,45 @@ def rails_worker_main():
             rec["live"] = b
             rec["same"] = (a == b)
             rec["nonempty"] = any(x for x in a)
+
+            async def cont_from(rails, saved, msgs):
+                """Responses of the messages `msgs` starting from the saved state (JSON dict)."""
+                st, resp = saved, []
+                for t in msgs:
+                    r = await rails.generate_async(messages=[{"role": "user", "content": t}], state=st)
+                    resp.append(text(r))
+                    st = r.state
+                return resp, st
+
+            async def branching():
+                shared = LLMRails(config=config, llm=FakeLLM(responses=[]))
+                r1 = await shared.generate_async(messages=[{"role": "user", "content": "hi"}], state={})
+                S1 = r1.state
+                plan = [["hi"], ["hi"], ["bye"], ["hi", "hi"], ["hi"], ["hi", "bye"], ["bye"]]
+                diffs = []
+                S2 = None
+                for k, msgs in enumerate(plan):
+                    got, st_after = await cont_from(shared, S1, msgs)          # S1 restored AGAIN on the shared instance
+                    if k == 0:
+                        S2 = st_after
+                    fresh = LLMRails(config=config, llm=FakeLLM(responses=[]))
+                    want, _ = await cont_from(fresh, S1, msgs)
+                    if got != want:
+                        diffs.append({"restore_no": k + 1, "saved_state": "S1 (after turn 1)", "continuation": msgs,
+                                      "shared_instance": got, "fresh_instance": want})
+                # go back to S2 after everything above, twice
+                for k in range(2):
+                    got, _ = await cont_from(shared, S2, ["bye"])
+                    fresh = LLMRails(config=config, llm=FakeLLM(responses=[]))
+                    want, _ = await cont_from(fresh, S2, ["bye"])
+                    if got != want:
+                        diffs.append({"restore_no": k + 1, "saved_state": "S2 (after turn 2)", "continuation": ["bye"],
+                                      "shared_instance": got, "fresh_instance": want})
+                return diffs, len(plan) + 2
+
+            diffs, n = asyncio.run(branching())
+            rec["branching_restores"] = n
+            rec["branching_diffs"] = diffs[:4]
         except BaseException as ex:  # noqa
             rec["raised"] = type(ex).__name__ + ": " + str(ex)[:200]
         out.append(rec)
@@ -1339,6 +1436,7 @@ def run(tier, seed, replay=None):
             x3_items.append({"src": src, "events": [rng.choice(A) for _ in range(6)], "seed": rng.randrange(10**6), "limit": 14})
         for name in ("finished-child-then-idle", "two-flows-one-action", "activated-restarts"):
             x3_items.append({"src": PROBES[name], "events": [A[0], A[2], A[4], A[3], A[0], A[2]], "seed": 1, "limit": 21})
+        x3_items.append({"src": PROBES["flow-exists-after-idle"], "events": [A[0], A[2], A[3], A[0]], "seed": 3, "limit": 21})
         for name in ("shared-action-owner-finishes", "shared-action-awaited"):
             for sd, evs in ((1, [A[0], A[5], A[2], A[3], A[4], A[3]]), (2, [A[0], A[2], A[1], A[4], A[3]])):
                 x3_items.append({"src": PROBES[name], "events": evs, "seed": sd, "limit": 21})
@@ -1464,11 +1562,14 @@ def run(tier, seed, replay=None):
         for c in x3cases:
             if c.get("wrong"):
                 w = c["wrong"][0]
-                sig = ("cleanup-removes-referenced-action" if str(w["status"]).startswith("ACTION:") else
+                sig = ("cleanup-forgets-flow-id" if w["status"] == "FLOWKEY" else
+                       "cleanup-removes-referenced-action" if str(w["status"]).startswith("ACTION:") else
                        "cleanup-removes-activated-instance" if w["activated"] != 0 else
                        "cleanup-removes-unfinished-instance" if w["status"] not in ("FINISHED", "STOPPED") else
                        "cleanup-removes-recently-finished-instance")
-                what = (f"_clean_up_state discarded action {w['status'][7:]} although the remaining instance {w['uid']} still lists it"
+                what = (f"_clean_up_state dropped the flow_id_states entry of flow {w['uid']} (CheckValidFlowExistsAction answers differently afterwards)"
+                        if sig == "cleanup-forgets-flow-id" else
+                        f"_clean_up_state discarded action {w['status'][7:]} although the remaining instance {w['uid']} still lists it"
                         if sig == "cleanup-removes-referenced-action" else
                         f"_clean_up_state discarded instance {w['uid']} (status {w['status']}, activated {w['activated']}, finished {w['age_s']:.6f} s ago)")
                 out.findings.append(C.Finding(sig, what,
@@ -1557,6 +1658,13 @@ def run(tier, seed, replay=None):
                 sig = classify_save({"save_raised": msg.replace("Exception: ", "Exception: ", 1)}, None) if "encode_to_dict" in msg or "JSON" in msg else "generate-async-raised"
                 out.findings.append(C.Finding(sig, f"LLMRails.generate_async raises for a Colang 2 config: {msg[:140]}",
                                               {"kind": "rails", "config": r["name"], "colang": RAILS_PROGRAMS[r["name"]], "observed": msg}))
+            elif r.get("branching_diffs"):
+                d = r["branching_diffs"][0]
+                out.findings.append(C.Finding("same-saved-state-restored-again-behaves-differently",
+                                              f"generate_async(state=S) on one LLMRails instance: restore no. {d['restore_no']} of the same saved "
+                                              f"state answers {d['shared_instance']} instead of {d['fresh_instance']}",
+                                              {"kind": "rails", "config": r["name"], "colang": RAILS_PROGRAMS[r["name"]], **d,
+                                               "required": "restoring a saved state always yields the saved state, however often it was restored before"}))
             elif not r.get("same"):
                 out.findings.append(C.Finding("restored-state-behaves-differently",
                                               "generate_async(state=<json>) answers differently from the live state",
@@ -1575,7 +1683,7 @@ def run(tier, seed, replay=None):
                 "cut point has >=2 flow instances and a pending action or a finished instance; X3: clean-up cases in which at "
                 "least one instance is removed",
         "samples": [{"x1": infos[:2]}, {"x2_program": items[len(PROBES)]["src"] if len(items) > len(PROBES) else None},
-                    {"rails": [{k: r.get(k) for k in ("name", "same", "raised")} for r in rails_info]}],
+                    {"rails": [{k: r.get(k) for k in ("name", "same", "raised", "branching_restores")} for r in rails_info]}],
         "input_distribution": {"x1_graph_kinds": kinds, "x1_encoder_results": enc_hist, "x1_decoder_results": dec_hist,
                                "x2_statement_mix": stats, "x2": x2, "x3_cases": x3_n, "x3_cases_with_removal": x3_removed,
                                "probe_programs": sorted(PROBES)},
